@@ -100,10 +100,12 @@ def guarded_run_case(part: Any, case: Any) -> Any:
         if now - st["t0"] > limit:
             raise Inconclusive(f"case exceeded {limit}s of wall clock")
         if ticks[0] != st["ticks"]:
-            st["ticks"], st["cpu"] = ticks[0], time.process_time()
+            st["ticks"], st["cpu"], st["moved"] = ticks[0], time.process_time(), True
             return
         burnt = time.process_time() - st["cpu"]
-        if burnt >= FROZEN_CPU:
+        # (only while a simulator loop is at work in this case: a check that calls the code
+        # under test directly, thousands of times per case, has no scheduler to freeze)
+        if burnt >= FROZEN_CPU and st.get("moved"):
             where = in_server_code(frame)
             if where is not None:
                 st["cpu"] = time.process_time()
